@@ -542,6 +542,11 @@ def parallel_trace_oracle(c, o, which):
             d, k = e[1:].split('.')
             fills[int(k)] = int(d)
             nfill += 1
+            # the reader obtains its (Q+m)-th data set only after the consumer has received m results and handed
+            # the previous set back, so m jobs must have finished before (the log entry `we` precedes the send)
+            if 'bounded' in which and nfill - cfg['Q'] > len(works):
+                v.failures.append('reader filled batch no. %d when only %d results existed: more than the queue length (%d) ahead of the consumer' % (nfill, len(works), cfg['Q']))
+                return v
             if 'bounded' in which and nfill - ncr > cfg['Q'] + 1:
                 v.failures.append('reader ran %d batches ahead of the consumer (queue length %d)' % (nfill - ncr, cfg['Q']))
                 return v
@@ -594,6 +599,11 @@ def parallel_trace_oracle(c, o, which):
         if clean and cfg['endErr'] and cfg['cont'] and cfg['stop'] is None and not ended:
             v.failures.append('consumer kept draining after the error but never received the end marker')
             return v
+        if clean and cfg['endErr'] and cfg['cont'] and cfg['stop'] is None:
+            got = sorted(k for _, k in crs)
+            if got != list(range(cfg['N'])):
+                v.failures.append('the reader failed after %d batches; the consumer kept draining but received only batches %s before the end marker' % (cfg['N'], got))
+                return v
         ret = [e for e in trace if e.startswith('ret')]
         if len(ret) != 1:
             v.failures.append('the call did not return exactly once: %s' % ret)
